@@ -97,7 +97,7 @@ func VerifC11Merge() {
 		if panicked {
 			return
 		}
-		if r == 0 {
+		{
 			// asking the same feed position twice gives the same answer
 			again, _, p2 := safeHarvest(cont, q)
 			same := !p2 && len(again) == len(items)
